@@ -17,17 +17,22 @@ from ..vloop import virtual_world
 from .c24 import cemi
 
 
-def run_session(kind, auto, schedule, hb_plan=(), seed=0):
+def run_session(kind, auto, schedule, hb_plan=(), seed=0, connect_plan=(), disc_plan=()):
     """schedule: list of (iteration, event) with event in server_disc | server_disc2 | user_disc"""
     from xknx.exceptions import CommunicationError
 
     info = {"iters": 0, "connected_iter": None}
     with virtual_world(seed) as loop:
-        sim = GatewaySim(loop, kind, auto_reconnect=auto, auto_reconnect_wait=1, hb_plan=list(hb_plan))
+        sim = GatewaySim(loop, kind, auto_reconnect=auto, auto_reconnect_wait=1, hb_plan=list(hb_plan),
+                         connect_plan=list(connect_plan), disc_plan=list(disc_plan))
         st = {"max_rtasks": 0, "user": False}
         sched = {}
+        timed = []
         for k, e in schedule:
-            sched.setdefault(k, []).append(e)
+            if isinstance(k, (list, tuple)):       # ("t", seconds): at a virtual time instead of a loop iteration
+                timed.append((float(k[1]), e))
+            else:
+                sched.setdefault(k, []).append(e)
 
         async def user_disc():
             st["user"] = True
@@ -40,16 +45,27 @@ def run_session(kind, auto, schedule, hb_plan=(), seed=0):
         def hook(k):
             info["iters"] = k
             st["max_rtasks"] = max(st["max_rtasks"], sim.snapshot()["rtasks"])
-            for e in sched.get(k, ()):
+            fire(sched.get(k, ()))
+
+        def fire(evs):
+            for e in evs:
                 if e == "server_disc":
                     sim.server_disconnect()
                 elif e == "server_disc2":
                     sim.server_disconnect()
                     sim.server_disconnect(chan=sim.tun.communication_channel or 0)
+                elif e == "tcp_lost":
+                    tr = sim.tun.transport.transport
+                    if tr is not None and not tr.is_closing():
+                        sim.log("lost")
+                        sim.chan = None
+                        tr.lose(ConnectionResetError("reset by peer"))
                 elif e == "user_disc" and not st["user"]:
                     st["task"] = asyncio.ensure_future(user_disc())
 
         loop.iter_hook = hook
+        for when, e in timed:
+            loop.call_at(when, fire, [e])
 
         async def send2():
             for i in range(2):
@@ -87,9 +103,10 @@ def run_session(kind, auto, schedule, hb_plan=(), seed=0):
         out = []
         for e in sim.ev:
             if e["ev"] in ("tx", "rx"):
-                out.append({"ev": e["ev"], "kind": e["kind"], "st": e.get("st", 0), "t": e["t"]})
-            elif e["ev"] in ("state_cb", "user_disc_ret", "end"):
-                out.append(e)
+                out.append({"ev": e["ev"], "kind": e["kind"], "st": e.get("st", 0), "chan": e.get("chan", -1), "t": e["t"]})
+            elif e["ev"] in ("state_cb", "user_disc_ret", "end", "lost"):
+                out.append({k: v for k, v in e.items() if k != "it"})
+        info["events"] = sim.ev
         return out, info
 
 
@@ -102,10 +119,12 @@ def run(ck):
     dev = tlc.mc(ck, "io/Life", "io/Life_Dev", expect_error=True, record=False, coverage=False)
     ck.add(deviation_model_counterexample="is violated" in dev.error)
     plans = []
+    c0s = {}
     for kind in ("udp", "tcp"):
         for auto in (True, False):
             _, base = run_session(kind, auto, [], seed=ck.seed)
             n, c0 = base["iters"], base["connected_iter"]
+            c0s[kind, auto] = c0
             step = 1 if ck.tier == "thorough" or kind == "udp" else 2
             for k in range(1, n + 1, step):
                 plans.append((kind, auto, [(k, "server_disc")], ()))
@@ -116,20 +135,46 @@ def run(ck):
                     for d in (0, 1, 2, 3) if ck.tier == "thorough" or k % 3 == 0 else (1,):
                         plans.append((kind, auto, [(k, "user_disc"), (k + d, "server_disc")], ()))
                         plans.append((kind, auto, [(k, "server_disc"), (k + d, "user_disc")], ()))
+                if kind == "tcp":
+                    plans.append((kind, auto, [(k, "tcp_lost")], ()))                       # the TCP connection drops
+                    if k > c0 and (k % 4 == 1 or ck.tier == "thorough"):
+                        plans.append((kind, auto, [(k, "tcp_lost"), (k + 2, "user_disc")], ()))
+            # the user disconnects at every iteration of a reconnect caused by four lost heartbeats (gateway answers the
+            # reconnect at once / ignores its DisconnectRequest / loses the first ConnectRequest)
+            if auto:
+                for extra in ({}, {"disc_plan": ["lost"]}, {"connect_plan": ["ok", "lost"]}, {"disc_plan": ["lost"], "connect_plan": ["ok", "lost"]},
+                              {"disc_plan": ["lost", "lost"]}, {"disc_plan": ["lost", "lost"], "connect_plan": ["ok", "lost"]}):
+                    _, b2 = run_session(kind, auto, [], ["none"] * 4, ck.seed, **extra)
+                    ev2 = b2["events"]
+                    hb4 = [e["it"] for e in ev2 if e["ev"] == "tx" and e["kind"] == "ConnectionStateRequest"]
+                    if len(hb4) >= 4:
+                        done = [e["it"] for e in ev2 if e["ev"] == "state_cb" and e["state"] == "CONNECTED" and e["it"] > hb4[3]]
+                        hi = (done[0] if done else hb4[3] + 60) + 4
+                        for k in range(hb4[3], hi, 1 if ck.tier == "thorough" or kind == "udp" else 2):
+                            plans.append((kind, auto, [(k, "user_disc")], ("none",) * 4, extra))
+                        # ... and at instants inside the waits of the reconnect (no loop iteration happens there by itself)
+                        lost_t = [e["t"] for e in ev2 if e["ev"] == "state_cb" and e["state"] == "DISCONNECTED" and e["it"] >= hb4[3]]
+                        if lost_t:
+                            for d in (0.1, 0.4, 0.9, 1.1, 1.6, 2.1, 2.6, 3.4) if ck.tier == "quick" else [x / 10 for x in range(1, 60, 2)]:
+                                plans.append((kind, auto, [(("t", lost_t[0] / 1000 + d), "user_disc")], ("none",) * 4, extra))
             for hb in (["none"] * 4, ["fail"] * 4, ["ok", "none", "none", "none", "none"]):
                 plans.append((kind, auto, [], tuple(hb)))
                 plans.append((kind, auto, [(c0 + rnd.randrange(5, 40), "user_disc")], tuple(hb)))
-    traces = [run_session(*p, seed=ck.seed)[0] for p in plans]
+    plans = [p if len(p) == 5 else (*p, {}) for p in plans]
+    traces = [run_session(p[0], p[1], p[2], p[3], ck.seed, **p[4])[0] for p in plans]
     res = tlc.batch(ck, "io/LifeMon_Trace", traces, min_per_shard=50)
     for idx, info in sorted(res.bad.items()):
-        kind, auto, sched, hb = plans[idx]
+        kind, auto, sched, hb, extra = plans[idx]
         t = traces[idx]
         l = info if isinstance(info, int) else 0
         ev = t[l - 1] if 0 < l <= len(t) else None
         evk = {k: v for k, v in (ev or {}).items() if k != "t"}
         key = {"transport": kind, "auto_reconnect": auto, "events": [e for _, e in sched], "heartbeat": list(hb), "rejected": evk}
+        if extra:
+            key["gateway"] = extra
+        key["phase"] = "initial_connect" if sched and all(isinstance(k, int) and k <= c0s[kind, auto] for k, _ in sched) else "session"
         ck.violation(key, f"lifecycle trace rejected at event {l}: {ev} ({kind}, auto_reconnect={auto}, schedule={sched}, hb={list(hb)})",
-                     {"kind": kind, "auto": auto, "schedule": sched, "hb": list(hb), "trace": t[-40:], "rejected_at": l})
+                     {"kind": kind, "auto": auto, "schedule": sched, "hb": list(hb), "extra": extra, "trace": t[-40:], "rejected_at": l})
     muts = []
     for i, t in enumerate(traces[:400]):
         if i in res.bad:
@@ -142,7 +187,7 @@ def run(ck):
         kr = [k for k, e in enumerate(t) if e["ev"] == "user_disc_ret"]
         if kr and len(muts) < 160:
             b = [dict(e) for e in t]
-            b.insert(kr[0] + 1, {"ev": "tx", "kind": "ConnectRequest", "st": 0, "t": 0})   # a frame after disconnect
+            b.insert(kr[0] + 1, {"ev": "tx", "kind": "ConnectRequest", "st": 0, "chan": -1, "t": 0})   # a frame after disconnect
             muts.append(b)
     r2 = tlc.batch(ck, "io/LifeMon_Trace", muts)
     if len(r2.bad) != len(muts) or not muts:
@@ -156,7 +201,7 @@ def replay(ck, path):
     import json
 
     d = json.loads(open(path).read())["replay"]
-    t, _ = run_session(d["kind"], d["auto"], [tuple(x) for x in d["schedule"]], tuple(d["hb"]), ck.seed)
+    t, _ = run_session(d["kind"], d["auto"], [(tuple(x[0]) if isinstance(x[0], list) else x[0], x[1]) for x in d["schedule"]], tuple(d["hb"]), ck.seed, **d.get("extra", {}))
     res = tlc.batch(ck, "io/LifeMon_Trace", [t])
     l = res.bad.get(0)
     print("rejected at:", l, t[l - 1] if l else None)
